@@ -288,6 +288,7 @@ mod tcp {
     use octo_squirrel::codec::shadowsocks::tcp::Identity;
     use octo_squirrel::codec::shadowsocks::tcp::Session;
     use octo_squirrel::protocol::shadowsocks::aead;
+    use octo_squirrel::protocol::socks5::address;
     use template::message::OutboundIn;
 
     use super::*;
@@ -320,6 +321,7 @@ mod tcp {
         session: Session<N>,
         cipher: AEADCipherCodec<N>,
         state: State,
+        pending: BytesMut,
     }
 
     enum State {
@@ -330,7 +332,7 @@ mod tcp {
     impl<const N: usize> PayloadCodec<N> {
         pub fn new(context: Arc<Context<N>>, mode: Mode, address: Option<Address>) -> Self {
             let session = Session::new(mode, Identity::default(), address);
-            Self { context, session, cipher: AEADCipherCodec::default(), state: State::Header }
+            Self { context, session, cipher: AEADCipherCodec::default(), state: State::Header, pending: BytesMut::new() }
         }
     }
 
@@ -350,7 +352,19 @@ mod tcp {
         fn decode(&mut self, src: &mut BytesMut) -> Result<Option<Self::Item>> {
             match self.state {
                 State::Header => {
-                    if let (Some(dst), Some(addr)) = (self.cipher.decode(&self.context, &mut self.session, src)?, self.session.address.as_ref()) {
+                    let Some(mut dst) = self.cipher.decode(&self.context, &mut self.session, src)? else {
+                        return Ok(None);
+                    };
+                    if self.session.address.is_none() {
+                        // legacy AEAD ciphers: the target address leads the decrypted stream
+                        self.pending.extend_from_slice(&dst);
+                        if self.pending.len() < 2 || self.pending.len() < address::try_decode_at(&self.pending, 0)? {
+                            return Ok(None);
+                        }
+                        self.session.address = Some(address::decode(&mut self.pending)?);
+                        dst = self.pending.split_off(0);
+                    }
+                    if let Some(addr) = self.session.address.as_ref() {
                         self.state = State::Body;
                         Ok(Some(InboundIn::ConnectTcp(dst, addr.clone())))
                     } else {
